@@ -221,6 +221,8 @@ def regen_model():
             status[mod] = {"status": "absent", "reason": info.get("status", "no output, no golden")}
     shutil.copy(os.path.join(tmp, "meta.json"), os.path.join(GEN, "meta.json")) if os.path.exists(
         os.path.join(tmp, "meta.json")) else None
+    LAST_MODEL_STATUS.clear()
+    LAST_MODEL_STATUS.update(status)
     return status
 
 
@@ -356,17 +358,59 @@ def prove(prop):
 
 # ----------------------------------------------------------------------------- oracle
 
+def fallback_tree(partial):
+    """A second Coq tree for the ORACLE only, used when the translator left functions out of the
+    regenerated model: the executable model then takes the committed (golden) version of the incomplete
+    modules, so that the monitors can still search the implementation's observations for a failing
+    input and the correspondence shows where the code departed.  The proof leg never uses this tree."""
+    root = os.path.join(CACHE, "coq-fallback")
+    for sub in ("Base", "Spec", "Model", "Extract"):
+        src = os.path.join(COQ, "theories", sub)
+        dst = os.path.join(root, "theories", sub)
+        os.makedirs(dst, exist_ok=True)
+        for f in os.listdir(src):
+            if f.endswith(".v"):
+                write_if_changed(os.path.join(dst, f), open(os.path.join(src, f)).read())
+    gdst = os.path.join(root, "Gen")
+    os.makedirs(gdst, exist_ok=True)
+    for f in os.listdir(GEN):
+        if not f.endswith(".v"):
+            continue
+        mod = f[:-2]
+        gold = os.path.join(GOLDEN, f)
+        src = gold if (mod in partial and os.path.exists(gold)) else os.path.join(GEN, f)
+        write_if_changed(os.path.join(gdst, f), open(src).read())
+    files = sorted(walk(os.path.join(root, "theories"), (".v",)) + walk(gdst, (".v",)))
+    rel = [os.path.relpath(f, root) for f in files if not f.endswith("Extract/Extract.v")]
+    txt = "-Q theories BM\n-Q Gen BM.Gen\n-arg -w -arg -notation-overridden,-deprecated-hint-without-locality,-deprecated-instance-without-locality\n"
+    txt += "\n".join(rel) + "\n"
+    if write_if_changed(os.path.join(root, "_CoqProject"), txt) or not os.path.exists(os.path.join(root, "Makefile")):
+        sh(["coq_makefile", "-f", "_CoqProject", "-o", "Makefile"], cwd=root)
+    return root
+
+
+LAST_MODEL_STATUS = {}
+
+
 def build_oracle():
     """Extract the current model + monitors to OCaml and build the line-protocol driver."""
     odir = os.path.join(CACHE, "oracle")
     os.makedirs(odir, exist_ok=True)
-    key = sha_files(walk(GEN, (".v",)) + walk(os.path.join(COQ, "theories"), (".v",)) +
+    partial = sorted(m for m, v in LAST_MODEL_STATUS.items() if v.get("not_translated"))
+    coq_root = fallback_tree(partial) if partial else COQ
+    gen_dir = os.path.join(coq_root, "Gen")
+    key = sha_files(walk(gen_dir, (".v",)) + walk(os.path.join(COQ, "theories"), (".v",)) +
                     [os.path.join(VERIF, "oracle", "driver.ml")])
     stamp = os.path.join(odir, "stamp")
     exe = os.path.join(odir, "oracle")
     if os.path.exists(exe) and os.path.exists(stamp) and open(stamp).read() == key:
         return exe, None
-    rc, out = coq_make(["theories/Extract/Driver.vo", "theories/Extract/DriverAlloc.vo", "theories/Extract/DriverTables.vo"])
+    targets = ["theories/Extract/Driver.vo", "theories/Extract/DriverAlloc.vo", "theories/Extract/DriverTables.vo"]
+    if partial:
+        log("oracle: modules %s are incomplete in the regenerated model; the oracle uses their committed version" % ", ".join(partial))
+        rc, out = sh(["make", "-k", "-j%d" % NPROC] + targets, cwd=coq_root, timeout=1500)
+    else:
+        rc, out = coq_make(targets)
     if rc != 0:
         return None, "model does not compile: " + out[-1500:]
     for f in ("Model.ml", "Model.mli"):
@@ -374,9 +418,9 @@ def build_oracle():
             os.remove(os.path.join(odir, f))
         except OSError:
             pass
-    rc, out = sh(["coqc", "-Q", os.path.join(COQ, "theories"), "BM", "-Q", GEN, "BM.Gen",
+    rc, out = sh(["coqc", "-Q", os.path.join(coq_root, "theories"), "BM", "-Q", gen_dir, "BM.Gen",
                   "-o", os.path.join(odir, "Extract.vo"),
-                  os.path.join(COQ, "theories", "Extract", "Extract.v")], cwd=odir, timeout=600)
+                  os.path.join(coq_root, "theories", "Extract", "Extract.v")], cwd=odir, timeout=600)
     if rc != 0 or not os.path.exists(os.path.join(odir, "Model.ml")):
         return None, "extraction failed: " + out[-1500:]
     shutil.copy(os.path.join(VERIF, "oracle", "driver.ml"), os.path.join(odir, "driver.ml"))
